@@ -1,5 +1,5 @@
 """C02 — acknowledged writes survive a crash at any point; batches are all-or-nothing."""
-from gen import lib, crash, codec
+from gen import lib, crash, codec, recover, proto
 
 PROP_FILE = "props/C02.v"
 WANT = ("recover", "post")
@@ -10,7 +10,12 @@ RULE = ("crash: histories of puts/deletes/multi-key batches (values up to 70 KB,
         "contents must be the specification after the completed writes, or additionally the one in "
         "flight as a whole; then further writes, a clean reopen and a second scan. A sample of images "
         "is crashed again during their own recovery (nested). Non-trivial image: at least one write "
-        "completed before the crash point; distinct by (history, crash point).")
+        "completed before the crash point; distinct by (history, crash point). recover: every crash "
+        "image is also given to the extracted recovery function Recover.recover_image: open result, last "
+        "sequence number and contents must equal the real DB::open's. proto: after every operation of a "
+        "history the complete directory (CURRENT, manifests record by record, logs byte by byte, tables "
+        "entry by entry) must equal what the extracted protocol model Proto.p_run derives from the "
+        "operations and the reported events.")
 TRUSTED = ["SimFs: every FileSystem trait call is atomic and durable once it returns (durability below the trait — fsync, directory entries, rename atomicity — is assumed, not modelled)"]
 ASSUMPTIONS = ["single client; WriteOptions::synchronous is ignored by the code and by the model"]
 
@@ -36,24 +41,48 @@ def corpus():
     return res
 
 
+def gen_recover(tier, rng):
+    n = 6 if tier == "quick" else 150
+    return [crash.make_case(rng, "r%d" % i, rng.choice([6, 12, 25]), rng.choice(["all", "all,torn", "step:3,torn"])) for i in range(n)]
+
+
+def gen_proto(tier, rng):
+    n = 24 if tier == "quick" else 1200
+    return [proto.gen_history(rng, i, rng.choice([6, 12, 25, 40])) for i in range(n)]
+
+
 def suites(tier, seed, rng):
     return [crash.CrashSuite(corpus() + gen_cases(tier, rng), WANT),
+            recover.RecoverSuite(gen_recover(tier, rng)),
+            proto.ProtoSuite(gen_proto(tier, rng)),
             codec.CodecSuite("codec", codec.gen(tier, rng, ("B",)), lambda i, s, c: True)]
 
 
 def replay_suites(rp):
     if rp.get("suite") == "codec":
         return [codec.CodecSuite("codec", [rp["case"]], lambda i, s, c: True)]
+    if rp.get("suite") == "recover":
+        return [recover.RecoverSuite([rp["case"]])]
+    if rp.get("suite") == "proto":
+        return [proto.ProtoSuite([rp["case"]])]
     return [crash.CrashSuite([rp["case"]], WANT)]
 
 
 def still_fails(suite, case, workdir):
+    if suite == "proto":
+        return proto.still_fails(case, workdir)
     if case.count(" # ") != 2:
         return False
+    if suite == "recover":
+        return recover.still_fails(case, workdir)
     return crash.still_fails(case, workdir, WANT)
 
 
 def shrink(f, workdir):
+    if f["suite"] == "proto":
+        return lib.shrink_case("proto", f["case"], lambda c: proto.still_fails(c, workdir)), f.get("detail", "")
+    if f["suite"] == "recover":
+        return recover.shrink(f["case"], workdir), f.get("detail", "")
     return crash.shrink(f["case"], workdir, WANT)
 
 
@@ -64,4 +93,8 @@ def nontrivial(suite, case):
 def classify(suite, case):
     if suite == "codec":
         return "codec:batch"
+    if suite == "proto":
+        return "proto:reopens=%d" % min(case.count(" O"), 3)
+    if suite == "recover":
+        return "recover:" + case.split(" # ")[2].split(",")[0].split(":")[0]
     return "crash:" + case.split(" # ")[2].split(",")[0].split(":")[0]
